@@ -10,7 +10,7 @@ import tlc
 PROBES = [("probe_logger", "asan", lc.LOGGER_RUNTIME, [])]
 
 MANIFEST = dict(
-    text='TLC proves on the TLA+ design of the logger (producers, FIFO queue, the consumer loop CheckStop/TryPop/Write/Sleep, stop = RequestStop;EnqueueSentinel;Join) for 1-3 producers x 2 lines at enabled or disabled levels with stop() beginning at every point: every accepted line written exactly once, per-producer order, consecutive sequence numbers, disabled levels absent, return value <=> accepted, stop returns only after the last write (and does return); and shows that each named deviation (exit_on_stop_flag, enqueue_return_inverted) violates an invariant. TLC exports the transition cover of the same design at the grain of the consumer\'s park positions; every exported schedule is enforced on the real FileLogger threads (the probe parks the consumer in its sleep / write calls and stop() in its join by symbol interposition; a producer is parked between the two halves of its push at the FIX8_VERIF yield point of the queue, hook H1), plus seeded free-running runs with 1-8 producer threads and stop() right after the last submit or in mid-flight. TLC validates every recorded execution (submits with return values, stop, file content) against the C28 monitor.',
+    text='TLC proves on the TLA+ design of the logger (producers, FIFO queue, the consumer loop CheckStop/TryPop/Write/Sleep, stop = RequestStop;EnqueueSentinel;Join) for 1-3 producers x 2 lines at enabled or disabled levels with stop() beginning at every point: every accepted line written exactly once, per-producer order, consecutive sequence numbers, disabled levels absent, return value <=> accepted, stop returns only after the last write (and does return); and shows that each named deviation (exit_on_stop_flag, enqueue_return_inverted) violates an invariant. TLC exports the transition cover of the same design at the grain of the consumer\'s park positions; every exported schedule is enforced on the real FileLogger threads (the probe parks the consumer in its sleep / write calls and stop() in its join by symbol interposition; a producer is parked between the two halves of its push at the FIX8_VERIF yield points of the queue, hook H1: after the ticket CAS and before the sub-queue push, or after the sub-queue push and before the publish, alternating), plus seeded free-running runs with 1-8 producer threads and stop() right after the last submit or in mid-flight. TLC validates every recorded execution (submits with return values, stop, file content) against the C28 monitor.',
     note='Trusts TLC, the probe (moves data, parses log lines), interposition of clock_nanosleep/write/pthread_join/pthread_create, ASan/UBSan. "Submitted before stop" = the submit call had returned when stop() was called. The queue is modelled at the grain C30 establishes: pushes are Reserve;Publish, pops go in ticket order and fail while the head ticket is unpublished.',
     tech='TLA+ design spec + TLC (safety and liveness); transition-cover replay on the real logger threads under controlled scheduling; free-running stress; TLC trace validation',
     ref='5.8, 6 C28')
@@ -110,7 +110,7 @@ def run(ctx):
         ctx.extra["selftest"] = "a corrupted record of a good execution is rejected by the monitor"
     ctx.trusted = ["TLC", "probe_logger (moves data; parses the log lines it reads back)",
                    "symbol interposition of clock_nanosleep / write / pthread_join / pthread_create as park positions",
-                   "hook H1: FIX8_VERIF yield point push.publish (parks a producer inside its push)",
+                   "hook H1: FIX8_VERIF yield points push.subpush / push.publish (park a producer inside its push)",
                    "ASan/UBSan for memory errors inside the logger"]
     ctx.assumptions = ["a line counts as submitted before stop iff its send() had returned when stop() was called",
                        "the inter-thread queue follows the ticket protocol of property C30 (Reserve;Publish, pop in ticket order)",
